@@ -42,6 +42,7 @@ HexVal == [c \in {"0","1","2","3","4","5","6","7","8","9","a","b","c","d","e","f
               [] c \in {"d", "D"} -> 13 [] c \in {"e", "E"} -> 14 [] c \in {"f", "F"} -> 15]
 IsHex(c) == c \in DOMAIN HexVal
 Code(c) == CASE c = "x" -> 120 [] c = "%" -> 37 [] c = "4" -> 52 [] c = "1" -> 49 [] c = "2" -> 50 [] c = "F" -> 70 [] c = "G" -> 71
+             [] c = "A" -> 65
              [] c = "f" -> 102 [] c = "/" -> 47 [] c = "+" -> 43 [] c = "5" -> 53 [] c = "0" -> 48 [] c = "e" -> 101 [] c = "E" -> 69 [] c = "b" -> 98
 RECURSIVE Decode(_, _, _)
 Decode(s, i, protected) ==        \* sequence of byte values; plain symbols are reported by their code given in the event
